@@ -171,7 +171,7 @@ theorem lmono_next (hk : LMonoK h j) : LMonoK h (nextW h j) := by
   obtain ⟨y, hy, hky⟩ := (nextW_pods hs hp).mem hx
   have e1 : y.pod.fs = x.pod.fs := key_transfer (·.pod.fs) (fun _ => rfl) hky
   have e2 : y.pod.ord = x.pod.ord := key_transfer (·.pod.ord) (fun _ => rfl) hky
-  obtain ⟨c, hcm, hco, hcfs⟩ := (rawNext_pod hs hp hy).2.2.2.2.2.2.2.2.2 (by rw [e1]; exact hfs)
+  obtain ⟨c, hcm, hco, hcfs⟩ := (rawNext_pod hs hp hy).2.2.2.2.2.2.2.2 (by rw [e1]; exact hfs)
   rw [hb, hE, ← e2, ← hco]
   exact hk.1.2.2 c hcm hcfs
 
